@@ -1,9 +1,16 @@
 """C16 — terminal output is delivered in order, exactly once; queue length = readable bytes.
 Structural clauses (DESIGN §5 C16): COUPLED(IOQueue chunks->length, pop->offset=0), single tty
-writer, consumed = written, frames_drop keeps the front chunk, poll flushes & loops while pending."""
+writer, consumed = written, frames_drop keeps the front chunk, poll flushes & loops while pending.
+
+Robustness: every rule that speaks about "function F" works on F with its private single-caller helpers expanded
+in place (`inl`, a variant of sa/inline.py that never expands the callees a rule uses as anchors), so extracting or
+inlining a helper does not move the constructs out of sight; comparisons, emptiness tests and removal operations are
+decided on canonical terms (`sa.flow.expr`) in every equivalent spelling that could be enumerated."""
+import copy
 import re
 from ..mir import call_matches, callee_name, op_local, op_const_int, place_str
-from ..flow import resolve_place, arg_place, origins, writes_to_field
+from ..flow import resolve_place, arg_place, origins, writes_to_field, expr
+from .. import inline as _inline
 
 REMOVERS = r"VecDeque::<T, A>::(pop_front|pop_back|drain|clear|truncate|retain|retain_mut|split_off|remove|swap_remove_back|swap_remove_front|append|extend|insert|push_front|push_back|resize|resize_with)$"
 OPTION_REMOVERS = r"VecDeque::<T, A>::(pop_front|pop_back)$"
@@ -18,6 +25,250 @@ CLAIM = {
     "technique": "MIR CFG/effect rules: coupled-update (path) analysis, who-may-call, value-origin dataflow, dominators",
     "design_ref": "DESIGN.md §5 C16",
 }
+
+
+# ------------------------------------------------------------------------------------------------
+# helpers shared with c17: helper-transparent bodies and meaning-level operand queries
+# ------------------------------------------------------------------------------------------------
+def inl(prog, path, keep=None, depth=3):
+    """Body of `path` with its inlinable callees (sa.inline.inlinable: crate-local plain fn / inherent method, not recursive,
+    small, all call sites in this body and its closures) expanded in place, except callees whose path matches `keep` — the
+    functions a rule uses as anchors stay calls.  Blocks of an expanded callee carry `inl_from`; the expanded call site is a
+    `goto` carrying `inl_call` (see `xcalls`).  The original bodies are unchanged."""
+    cache = prog.__dict__.setdefault("_c16_inl_cache", {})
+    key = (path, keep, depth)
+    if key in cache:
+        return cache[key]
+    from ..mir import Body
+    base = prog.body(path)
+    if base is None:
+        return None
+    root = base.closure_root or base.path
+    j = None
+    work = list(range(len(base.blocks)))
+    level = {i: 0 for i in work}
+    blocks, locals_, vars_ = base.blocks, base.locals, base.j["vars"]
+    n_inl = 0
+    while work:
+        bb = work.pop(0)
+        blk = blocks[bb]
+        t = blk["term"]
+        if t["k"] != "call" or level.get(bb, 0) >= depth or blk["cleanup"]:
+            continue
+        f = t["fn"]
+        cpath = f.get("resolved") if f.get("resolved_local") else (f.get("path") if f.get("local") else None)
+        if not cpath or (keep and re.search(keep, cpath)):
+            continue
+        callee = prog.body(cpath)
+        if callee is None or len(t["args"]) != callee.arg_count or not _inline.inlinable(prog, callee, root):
+            continue
+        if j is None:
+            j = copy.deepcopy(base.j)
+            blocks, locals_, vars_ = j["blocks"], j["locals"], j["vars"]
+            blk = blocks[bb]
+            t = blk["term"]
+        lo, bo = len(locals_), len(blocks)
+        locals_.extend(copy.deepcopy(callee.locals))
+        for v in callee.j["vars"]:
+            vars_.append({"name": v["name"], "place": _inline._shift(v["place"], lo, 0)})
+        for k, a in enumerate(t["args"]):
+            blk["stmts"].append({"k": "assign", "place": {"l": lo + 1 + k, "p": []}, "rv": {"k": "use", "a": a}, "line": t.get("line", 0),
+                                 "exp": False, "expk": "", "inl_arg": callee.path})
+        dest, target, line = t["dest"], t["t"], t.get("line", 0)
+        blk["term"] = {"k": "goto", "t": bo, "inl_call": callee.path, "inl_n": len(callee.blocks), "inl_dest": dest, "inl_ret_t": target, "line": line}
+        for i, cb in enumerate(callee.blocks):
+            nb = _inline._shift(cb, lo, bo)
+            nb["inl_from"] = cb.get("inl_from") or callee.path
+            if nb["term"]["k"] == "return":
+                nb["stmts"].append({"k": "assign", "place": dest, "rv": {"k": "use", "a": {"k": "move", "place": {"l": lo, "p": []}}}, "line": line,
+                                    "exp": False, "expk": "", "inl_ret": callee.path})
+                nb["term"] = {"k": "goto", "t": target} if target >= 0 else {"k": "unreachable"}
+            blocks.append(nb)
+            level[bo + i] = level.get(bb, 0) + 1
+            work.append(bo + i)
+        n_inl += 1
+    if j is None:
+        cache[key] = base
+        return base
+    j["inlined_calls"] = n_inl
+    nb = Body(j, prog)
+    cache[key] = nb
+    return nb
+
+
+def origin(body, bb):
+    """def path of the function the block was written in"""
+    return body.blocks[bb].get("inl_from") or body.path
+
+
+def family(body):
+    """paths of the body and of every helper expanded into it"""
+    return {body.path} | {b["inl_from"] for b in body.blocks if b.get("inl_from")}
+
+
+def xcalls(body):
+    """(bb, call terminator) of every non-cleanup call, including the expanded ones (as a call-shaped pseudo terminator whose
+    successor `t` is the first block of the expansion and whose `ret_t` is the block the original call returned to)"""
+    for i, blk in enumerate(body.blocks):
+        if blk["cleanup"]:
+            continue
+        t = blk["term"]
+        if t["k"] == "call":
+            yield i, t
+        elif t["k"] == "goto" and t.get("inl_call"):
+            p = t["inl_call"]
+            yield i, {"k": "call", "fn": {"path": p, "resolved": p, "local": True, "resolved_local": True, "generics": [], "resolved_generics": []},
+                      "args": [s["rv"]["a"] for s in blk["stmts"] if s.get("inl_arg") == p], "dest": t.get("inl_dest"), "t": t["t"],
+                      "ret_t": t.get("inl_ret_t"), "unwind": -1, "line": t.get("line", 0), "exp": False, "expanded": True}
+
+
+def const_int(body, operand):
+    """integer value of an operand: a literal, a named constant, or a local that only ever holds one constant"""
+    v = op_const_int(operand)
+    if v is not None:
+        return v
+    og = origins(body, operand)
+    if len(og) == 1:
+        o = next(iter(og))
+        if o[0] == "const":
+            try:
+                return int(o[1])
+            except (TypeError, ValueError):
+                return None
+    return None
+
+
+def value_def(body, operand):
+    """("agg", rvalue) / ("call", terminator) that defines the operand's value, through moves, copies and reborrow-free
+    argument passing of expanded helpers"""
+    l = op_local(operand)
+    seen = set()
+    while l is not None and l not in seen:
+        seen.add(l)
+        ds = body.defs_of(l)
+        if len(ds) != 1:
+            return None
+        bb, si, rv = ds[0]
+        if si == "term":
+            return ("call", rv)
+        if rv["k"] == "agg":
+            return ("agg", rv)
+        if rv["k"] == "use":
+            l = op_local(rv["a"])
+            continue
+        return None
+    return None
+
+
+def hosts(prog, path, depth=0):
+    """bodies that effectively execute the code of `path`: the body itself, or — when it is a helper that `inl` expands into its
+    only caller root — the bodies that call it (transitively)"""
+    b = prog.body(path)
+    if b is None or b.kind == "Closure" or depth > 3:
+        return {path}
+    cs = _inline.callers_of(prog, path)
+    roots = set()
+    for c in cs:
+        cb = prog.body(c)
+        roots.add((cb.closure_root or cb.path) if cb is not None else c)
+    if len(roots) != 1 or not _inline.inlinable(prog, b, next(iter(roots))):
+        return {path}
+    out = set()
+    for c in cs:
+        ci = inl(prog, c)
+        if ci is None or path not in family(ci):
+            return {path}
+        out |= hosts(prog, c, depth + 1)
+    return out or {path}
+
+
+def ret_locals(body):
+    """locals that hold a return value: _0 and the return place of every expanded helper"""
+    out = {0}
+    for i, si, st in body.assigns():
+        if st.get("inl_ret"):
+            out.add(st["rv"]["a"]["place"]["l"])
+    return out
+
+
+def err_blocks(body):
+    """blocks in which the function — or an expanded helper — produces its error result (`Err(..)` / `?` residual).  After expansion a
+    helper's error return is followed by the caller's own `?`, whose Continue edge is infeasible there: rules cut paths at these blocks."""
+    rl = ret_locals(body)
+    out = set()
+    for i, blk in enumerate(body.blocks):
+        if blk["cleanup"]:
+            continue
+        for st in blk["stmts"]:
+            if st["k"] == "assign" and not st["place"]["p"] and st["place"]["l"] in rl and st["rv"]["k"] == "agg" and st["rv"].get("variant") in ("Err", "None"):
+                out.add(i)
+        t = blk["term"]
+        if t["k"] == "call" and not t["dest"]["p"] and t["dest"]["l"] in rl and call_matches(t, r"FromResidual.*::from_residual$"):
+            out.add(i)
+    return out
+
+
+def cmp_parts(e):
+    """('Gt', lhs, rhs) of a canonical comparison term, with any outer Not(..) folded into the operator; None otherwise"""
+    neg = False
+    while e.startswith("Not(") and e.endswith(")"):
+        e, neg = e[4:-1], not neg
+    m = re.match(r"^(Eq|Ne|Gt|Lt|Ge|Le)\(", e)
+    if not m or not e.endswith(")"):
+        return None
+    inner = e[len(m.group(0)):-1]
+    d = 0
+    cut = None
+    for i, ch in enumerate(inner):
+        if ch in "([{":
+            d += 1
+        elif ch in ")]}":
+            d -= 1
+        elif ch == "," and d == 0 and inner[i + 1:i + 2] == " ":
+            cut = i
+            break
+    if cut is None:
+        return None
+    op = m.group(1)
+    if neg:
+        op = {"Eq": "Ne", "Ne": "Eq", "Gt": "Le", "Le": "Gt", "Lt": "Ge", "Ge": "Lt"}[op]
+    return op, inner[:cut], inner[cut + 2:]
+
+
+def size_test(e, size_rx):
+    """For a bool term comparing a size S (a term matching size_rx) with a constant: the least value of S when the term is true and
+    when it is false, as (min_if_true, max_if_true, min_if_false, max_if_false) with None = unbounded.  None if not such a test."""
+    c = cmp_parts(e)
+    if c is None:
+        return None
+    op, a, b = c
+    if re.fullmatch(size_rx, b) and re.fullmatch(r"\d+", a):
+        a, b = b, a
+        op = {"Gt": "Lt", "Lt": "Gt", "Ge": "Le", "Le": "Ge"}.get(op, op)
+    if not (re.fullmatch(size_rx, a) and re.fullmatch(r"\d+", b)):
+        return None
+    n = int(b)
+    if op == "Gt":
+        return (n + 1, None, 0, n)
+    if op == "Ge":
+        return (n, None, 0, n - 1)
+    if op == "Lt":
+        return (0, n - 1, n, None)
+    if op == "Le":
+        return (0, n, n + 1, None)
+    if op == "Eq":
+        return (n, n, (1 if n == 0 else 0), None)
+    if op == "Ne":
+        return ((1 if n == 0 else 0), None, n, n)
+    return None
+
+
+def bool_edges(t):
+    """(target when the switched bool is true, target when false)"""
+    if t["k"] != "switch" or t["vals"] != ["0"]:
+        return None
+    return t["otherwise"], t["targets"][0]
+
 
 def ioqueue_bodies(prog):
     return [b for b in prog.bodies if b.impl_self == "common::IOQueue" and b.kind == "AssocFn"]
@@ -38,31 +289,91 @@ def some_edge_block(body, bb, t):
                 for v, tg in zip(tt["vals"], tt["targets"]):
                     if v == "1":
                         return tg
+                if "0" in tt["vals"] and len(tt["vals"]) == 1:
+                    return tt["otherwise"]
     return None
+
+
+def range_start(body, operand):
+    """constant start of a Range/RangeFrom/RangeInclusive argument; None for RangeTo/RangeFull/unknown"""
+    d = value_def(body, operand)
+    if d and d[0] == "agg" and re.search(r"::(RangeFrom|Range)$", d[1].get("adt", "")):
+        return const_int(body, d[1]["fields"][0])
+    if d and d[0] == "call" and call_matches(d[1], r"RangeInclusive::<Idx>::new$"):
+        return const_int(body, d[1]["args"][0])
+    return None
+
+
+def keeps_front(body, cfg, bb, t, chunks):
+    """does this removal on the chunk deque provably leave element 0 in place?  (ok, k) — k = index of the first element removed"""
+    nm = callee_name(t).split("::")[-1]
+    if nm == "drain":
+        st = range_start(body, t["args"][1])
+        return (st is not None and st >= 1), st
+    if nm in ("truncate", "split_off", "remove"):
+        k = const_int(body, t["args"][1])
+        return (k is not None and k >= 1), k
+    if nm == "pop_back":
+        # only under a dominating test that the deque holds at least two chunks
+        size_rx = r"VecDeque::len\(%s\)" % re.escape(chunks)
+        for s, tt in body.terms():
+            if tt["k"] != "switch" or not cfg.dominates(s, bb) or s == bb:
+                continue
+            st = size_test(expr(body, tt["d"]), size_rx)
+            ed = bool_edges(tt)
+            if st is None or ed is None:
+                continue
+            for tgt, lo in ((ed[0], st[0]), (ed[1], st[2])):
+                if lo is not None and lo >= 2 and cfg.edge_dominates(s, tgt, bb):
+                    # nothing else shrinks the deque between the test and the pop
+                    return True, None
+        return False, None
+    return False, None
 
 
 def run(ctx):
     prog = ctx.prog
     ctx.explanation = (
         "Decides structural necessary conditions of C16 from MIR: (a) in every IOQueue method each operation that removes or adds "
-        "bytes of `chunks` lies only on paths that also assign `length`, and popping the front chunk resets `offset`; (b) the only "
+        "bytes of `chunks` lies only on paths that also assign `length`, `length` is only ever updated relative to its old value, and "
+        "popping the front chunk resets `offset`; (b) the only "
         "body that writes to the tty fd is the closure handed to consume_with in UnixTerminal::poll (execute/Write::write/image "
         "handlers/position write only to write_queue); (c) the amount consumed from the queue is the value returned by the tty write; "
-        "(d) frames_drop keeps the front chunk (drain starts at constant 1); (e) poll flushes first and keeps looping while the "
-        "queue is non-empty. NOT decided: kernel schedules, whole-chunk granularity while the last chunk is open.")
+        "(d) frames_drop keeps the front chunk (every removal starts at a constant index >= 1); (e) poll flushes first and keeps looping while the "
+        "queue is non-empty. Private single-caller helpers are expanded into their caller before a rule looks at it. "
+        "NOT decided: kernel schedules, whole-chunk granularity while the last chunk is open.")
     ctx.assume("MIR of the dev profile is the semantics of the code; unwind paths are out of scope")
 
     # ---------------- (a) COUPLED -------------------------------------------------------------
-    ctx.rule("COUPLED-length", "content-changing op on IOQueue.chunks lies only on paths that assign IOQueue.length", floor=4)
-    ctx.rule("COUPLED-offset", "pop of the front chunk is followed by offset = 0; offset writes are coupled with length writes", floor=2)
+    ctx.rule("COUPLED-length", "content-changing op on IOQueue.chunks lies only on paths that assign IOQueue.length; length is updated relative to its old value", floor=4)
+    ctx.rule("COUPLED-offset", "pop of the front chunk is coupled with offset = 0; offset writes are coupled with length writes", floor=2)
     bodies = ioqueue_bodies(prog)
     if len(bodies) < 10:
         ctx.anchor("COUPLED-length", "IOQueue-methods", "expected the IOQueue impl blocks (>=10 methods), found %d" % len(bodies))
-    for b in bodies:
+    ioq_paths = {b.path for b in bodies}
+    for b0 in bodies:
+        # a private helper that is expanded into its only caller, itself an IOQueue method, is judged there (with its context)
+        hs = hosts(prog, b0.path)
+        if hs != {b0.path} and all((prog.body(h) is not None and (prog.body(h).closure_root or h) in ioq_paths) for h in hs):
+            ctx.instance("COUPLED-length", {"fn": b0.path, "judged_in": sorted(hs)}, nontrivial=False)
+            continue
+        b = inl(prog, b0.path) or b0
         cfg = b.cfg()
         lw = {i for (i, si, rp, s) in writes_to_field(b, r"^\(\*_1\)\.length$")}
         ow = writes_to_field(b, r"^\(\*_1\)\.offset$")
-        # delegation: a method that passes &mut self on to another IOQueue method is covered there
+        for (i, si, rp, s) in writes_to_field(b, r"^\(\*_1\)\.length$"):
+            if si == "term":
+                e = "call"
+            else:
+                rv = s["rv"]
+                e = expr(b, rv["a"]) if rv["k"] == "use" else ("%s(%s, %s)" % (rv["op"].replace("WithOverflow", ""), expr(b, rv["a"]), expr(b, rv["b"])) if rv["k"] == "bin" else rv["k"])
+            rel = bool(re.match(r"^(Add|Sub)\(arg1\.length, ", e)) or bool(re.match(r"^(Add)\(.*, arg1\.length\)$", e)) \
+                or bool(re.match(r"^(usize|num)::.*(saturating|wrapping|checked|unchecked)_(add|sub)\(arg1\.length, ", e))
+            ctx.instance("COUPLED-length", {"fn": origin(b, i), "length_update": e[:120], "relative": rel, "site": "%s:%d" % (b.file, s.get("line", 0))})
+            if not rel:
+                ctx.violation("COUPLED-length", origin(b, i), "length-absolute",
+                              "IOQueue.length is overwritten with %s instead of being adjusted by the bytes added/removed: the bytes already consumed from the front chunk "
+                              "(offset) are counted again, len() no longer equals the readable bytes" % e[:100], sites=["%s:%d" % (b.file, s.get("line", 0))])
         for bb, t in b.calls():
             is_remover = call_matches(t, REMOVERS)
             is_chunk_writer = call_matches(t, CHUNK_WRITERS)
@@ -80,7 +391,7 @@ def run(ctx):
             if name in ("push_back", "push_front"):
                 og = origins(b, t["args"][1])
                 if og and all(o[0] == "call" and re.search(r"Default>::default$|Vec::<T>::new$", o[2]) for o in og):
-                    ctx.instance("COUPLED-length", {"fn": b.path, "op": name + "(empty chunk)", "site": "%s:%d" % (b.file, t["line"]), "exempt": "adds no bytes"}, nontrivial=False)
+                    ctx.instance("COUPLED-length", {"fn": origin(b, bb), "op": name + "(empty chunk)", "site": "%s:%d" % (b.file, t["line"]), "exempt": "adds no bytes"}, nontrivial=False)
                     continue
             anchor_bb = bb
             if call_matches(t, OPTION_REMOVERS):
@@ -91,37 +402,46 @@ def run(ctx):
             pre = cfg.reachable_from(0, removed=lw)
             post = cfg.reachable_from(anchor_bb, removed=lw - {anchor_bb}) if anchor_bb not in lw else set()
             bad = (anchor_bb in pre or bb in pre) and any(r in post for r in cfg.returns) and anchor_bb not in lw
-            ctx.instance("COUPLED-length", {"fn": b.path, "op": name, "site": "%s:%d" % (b.file, t["line"]), "length_writes_in_blocks": sorted(lw)})
+            ctx.instance("COUPLED-length", {"fn": origin(b, bb), "op": name, "site": "%s:%d" % (b.file, t["line"]), "length_writes_in_blocks": sorted(lw)})
             if bad:
-                ctx.violation("COUPLED-length", b.path, name,
-                              "%s changes the contents of IOQueue.chunks on a path that never updates IOQueue.length: len() no longer equals the readable bytes" % b.path,
+                ctx.violation("COUPLED-length", origin(b, bb), name,
+                              "%s changes the contents of IOQueue.chunks on a path that never updates IOQueue.length: len() no longer equals the readable bytes" % origin(b, bb),
                               sites=["%s:%d" % (b.file, t["line"])])
             if re.search(r"pop_front$", callee_name(t)):
-                # offset = 0 must post-dominate the Some edge
-                zero_w = {i for (i, si, rp, s) in ow if s.get("rv", {}).get("k") == "use" and op_const_int(s["rv"]["a"]) == 0}
+                # every path through the Some edge passes offset = 0 (before or after the pop)
+                zero_w = {i for (i, si, rp, s) in ow if si != "term" and s.get("rv", {}).get("k") == "use" and const_int(b, s["rv"]["a"]) == 0}
+                pre_z = cfg.reachable_from(0, removed=zero_w)
                 ok, wit = cfg.must_pass(zero_w, start=anchor_bb)
-                ctx.instance("COUPLED-offset", {"fn": b.path, "op": "pop_front -> offset = 0", "site": "%s:%d" % (b.file, t["line"])})
+                if not ok and anchor_bb not in pre_z and bb not in pre_z:
+                    ok = True     # reset on every path leading to the pop, and nothing advances it in between (checked below)
+                    adv = {i for (i, si, rp, s) in ow if i not in zero_w}
+                    if any(cfg.dominates(z, a) and a in cfg.reaches({bb}) for z in zero_w for a in adv):
+                        ok = False
+                ctx.instance("COUPLED-offset", {"fn": origin(b, bb), "op": "pop_front -> offset = 0", "site": "%s:%d" % (b.file, t["line"])})
                 if not ok:
-                    ctx.violation("COUPLED-offset", b.path, "pop_front",
+                    ctx.violation("COUPLED-offset", origin(b, bb), "pop_front",
                                   "front chunk popped but offset is not reset to 0 on path %s" % wit, sites=["%s:%d" % (b.file, t["line"])])
         for (i, si, rp, s) in ow:
-            if s.get("rv", {}).get("k") == "use" and op_const_int(s["rv"]["a"]) == 0:
+            if si != "term" and s.get("rv", {}).get("k") == "use" and const_int(b, s["rv"]["a"]) == 0:
                 continue
             # non-zero offset write: must be coupled with a length write on every path through it
-            pre_ok = True
             post = cfg.reachable_from(i, removed=lw - {i})
             bad = i not in lw and any(r in post for r in cfg.returns) and not cfg.must_pass(lw, start=0, exits=[i])[0]
-            ctx.instance("COUPLED-offset", {"fn": b.path, "op": "offset advance", "site": "%s:%d" % (b.file, s["line"])})
+            ctx.instance("COUPLED-offset", {"fn": origin(b, i), "op": "offset advance", "site": "%s:%d" % (b.file, s["line"])})
             if bad:
-                ctx.violation("COUPLED-offset", b.path, "offset-advance",
+                ctx.violation("COUPLED-offset", origin(b, i), "offset-advance",
                               "offset advanced on a path that does not reduce length", sites=["%s:%d" % (b.file, s["line"])])
 
     # ---------------- (b) WHO-CALLS -----------------------------------------------------------
     ctx.rule("WHO-WRITES-TTY", "bodies that can write to a file descriptor: only Tty::write, the waker closure; Tty::write only from poll's consume_with closure", floor=3)
-    poll = prog.one(r"^<unix::UnixTerminal as terminal::Terminal>::poll$")
-    if poll is None:
+    poll0 = prog.one(r"^<unix::UnixTerminal as terminal::Terminal>::poll$")
+    if poll0 is None:
         ctx.anchor("WHO-WRITES-TTY", "UnixTerminal::poll")
         return
+    # poll with its private helpers expanded; the IOQueue API, guard_io and the readiness tests are the anchors of the rules below
+    POLL_KEEP = r"^common::IOQueue::|^unix::guard_io$|^unix::PollEvent::is_(readable|writable)$"
+    poll = inl(prog, poll0.path, keep=POLL_KEEP)
+    poll_family = family(poll)
     raw_writers = {}
     for b in prog.bodies:
         if not b.file.endswith(("unix.rs", "terminal.rs", "common.rs", "render.rs", "encoder.rs", "image.rs")):
@@ -142,15 +462,17 @@ def run(ctx):
     for path, sites in sorted(raw_writers.items()):
         for (callee, site) in sites:
             ctx.instance("WHO-WRITES-TTY", {"fn": path, "callee": callee, "site": site})
-            if callee.startswith("<unix::Tty as std::io::Write>::write") :
-                tty_write_callers.append(path)
-                b = prog.body(path)
+            if callee.startswith("<unix::Tty as std::io::Write>::write"):
                 if "(via " in callee:
                     ctx.violation("WHO-WRITES-TTY", path, "Tty::write-loop",
                                   "the tty is written through %s: only the single-attempt Tty::write keeps the consumed amount equal to the bytes the kernel accepted" % callee, sites=[site])
-                if not (b and b.kind == "Closure" and b.closure_root == poll.path):
-                    ctx.violation("WHO-WRITES-TTY", path, "Tty::write",
-                                  "Tty::write is called outside the consume_with closure of UnixTerminal::poll: bytes can bypass or race the write queue", sites=[site])
+                # a helper that is expanded into its only caller writes on behalf of that caller
+                for h in sorted(hosts(prog, path)):
+                    tty_write_callers.append(h)
+                    b = prog.body(h)
+                    if not (b and b.kind == "Closure" and b.closure_root in poll_family):
+                        ctx.violation("WHO-WRITES-TTY", path, "Tty::write",
+                                      "Tty::write is called outside the consume_with closure of UnixTerminal::poll: bytes can bypass or race the write queue", sites=[site])
             elif path not in allowed_raw:
                 ctx.violation("WHO-WRITES-TTY", path, callee.split("::")[-1],
                               "raw write to a file descriptor outside the allowed set %s" % sorted(allowed_raw), sites=[site])
@@ -158,31 +480,29 @@ def run(ctx):
         ctx.anchor("WHO-WRITES-TTY", "Tty::write-caller", "no body calls <Tty as Write>::write: the delivery path was not recognised")
     # the closure must be the argument of consume_with on self.write_queue
     ctx.rule("CONSUME-WITH", "poll hands the tty-writing closure to IOQueue::consume_with on self.write_queue", floor=1)
-    cw = [(bb, t) for bb, t in poll.calls() if call_matches(t, r"^common::IOQueue::consume_with$")]
+    cw = [(bb, t) for bb, t in xcalls(poll) if call_matches(t, r"^common::IOQueue::consume_with$")]
     if len(cw) != 1:
         ctx.anchor("CONSUME-WITH", "poll/consume_with", "expected exactly one consume_with call in poll, found %d" % len(cw))
     else:
         bb, t = cw[0]
         recv = arg_place(poll, t, 0)
-        ctx.instance("CONSUME-WITH", {"receiver": recv, "site": "%s:%d" % (poll.file, t["line"])})
+        ctx.instance("CONSUME-WITH", {"receiver": recv, "site": "%s:%d" % (poll.file, t["line"]), "in": origin(poll, bb)})
         if recv != "(*_1).write_queue":
             ctx.violation("CONSUME-WITH", poll.path, "receiver", "consume_with is not applied to self.write_queue but to %s" % recv, sites=["%s:%d" % (poll.file, t["line"])])
-        og = origins(poll, t["args"][1])
-        clos = [o for o in og if o[0] == "rv" and o[2].startswith("agg:closure")]
         cl_paths = set(tty_write_callers)
-        # closure value: find aggregate closure def
-        cdefs = set()
-        for i, si, s in poll.assigns():
-            if s["rv"]["k"] == "agg" and s["rv"]["ak"] == "closure":
-                if s["place"]["l"] == op_local(t["args"][1]) or True:
-                    cdefs.add(s["rv"]["def"])
+        d = value_def(poll, t["args"][1])
+        if d and d[0] == "agg" and d[1].get("ak") == "closure":
+            cdefs = {d[1]["def"]}
+        else:
+            # closure value not traced to one aggregate: any closure constructed in poll (or an expanded helper)
+            cdefs = {s["rv"]["def"] for i, si, s in poll.assigns() if s["rv"]["k"] == "agg" and s["rv"]["ak"] == "closure"}
         if not (cl_paths & cdefs):
-            ctx.violation("CONSUME-WITH", poll.path, "closure", "the closure calling Tty::write is not constructed in poll", sites=[])
+            ctx.violation("CONSUME-WITH", poll.path, "closure", "the closure calling Tty::write is not the one poll hands to consume_with", sites=[])
 
     # ---------------- (c) RETURNS-FROM --------------------------------------------------------
     ctx.rule("RETURNS-FROM", "amount consumed = value returned by the tty write (through guard_io(..,0) and `?` only)", floor=3)
-    for path in set(tty_write_callers):
-        b = prog.body(path)
+    for path in sorted(set(tty_write_callers)):
+        b = inl(prog, path, keep=r"^unix::guard_io$") if prog.body(path) is not None else None
         if b is None:
             continue
         # value returned in Ok(..) on normal path
@@ -206,19 +526,20 @@ def run(ctx):
         for bb, t in b.calls():
             if call_matches(t, r"^unix::guard_io$"):
                 og = origins(b, t["args"][0])
-                ctx.instance("RETURNS-FROM", {"fn": path, "guard_io_arg_origins": sorted(str(o) for o in og), "otherwise": op_const_int(t["args"][1])})
+                other = const_int(b, t["args"][1])
+                ctx.instance("RETURNS-FROM", {"fn": path, "guard_io_arg_origins": sorted(str(o) for o in og), "otherwise": other})
                 if not (og and all(o[0] == "call" and o[2] == "<unix::Tty as std::io::Write>::write" for o in og)):
                     ctx.violation("RETURNS-FROM", path, "guard_io-source",
                                   "the byte count handed to guard_io is not the result of one Tty::write attempt (origins %s): a looping or mapped write hides partial progress when the tty returns EAGAIN, so delivered bytes are retransmitted" % sorted(map(str, og)),
                                   sites=["%s:%d" % (b.file, t["line"])])
                     continue
-                if op_const_int(t["args"][1]) != 0:
+                if other != 0:
                     ctx.violation("RETURNS-FROM", path, "guard_io-otherwise",
-                                  "EAGAIN/EINTR on the tty write must consume 0 bytes, found otherwise=%s" % op_const_int(t["args"][1]),
+                                  "EAGAIN/EINTR on the tty write must consume 0 bytes, found otherwise=%s" % other,
                                   sites=["%s:%d" % (b.file, t["line"])])
         if not good and not [v for v in ctx.violations if v.rule == "RETURNS-FROM"]:
             ctx.anchor("RETURNS-FROM", "closure-return", "could not find `Ok(size)` in the tty-writing closure")
-    cwb = prog.one(r"^common::IOQueue::consume_with$")
+    cwb = inl(prog, "common::IOQueue::consume_with", keep=r"^common::IOQueue::(consume|as_slice)$")
     if cwb is None:
         ctx.anchor("RETURNS-FROM", "IOQueue::consume_with")
     else:
@@ -238,47 +559,55 @@ def run(ctx):
             for bb2, t2 in calls:
                 # tuple arg
                 og2 = set()
-                l = op_local(t2["args"][1])
-                for d in cwb.defs_of(l):
-                    if d[1] != "term" and d[2]["k"] == "agg" and d[2]["ak"] == "tuple":
-                        og2 |= origins(cwb, d[2]["fields"][0])
+                d = value_def(cwb, t2["args"][1])
+                if d and d[0] == "agg" and d[1]["ak"] == "tuple":
+                    og2 |= origins(cwb, d[1]["fields"][0])
                 ctx.instance("RETURNS-FROM", {"fn": cwb.path, "consumer_input_origins": sorted(str(o) for o in og2)})
                 if not (og2 and all(o[0] == "call" and o[2] == "common::IOQueue::as_slice" for o in og2)):
                     ctx.violation("RETURNS-FROM", cwb.path, "consumer-input", "consumer is not given as_slice() of the queue: %s" % sorted(map(str, og2)), sites=["%s:%d" % (cwb.file, t2["line"])])
 
     # ---------------- (d) frames_drop ---------------------------------------------------------
-    ctx.rule("FRONT-KEPT", "frames_drop -> IOQueue::clear_but_last; every drain/removal there starts at constant index >= 1", floor=2)
-    fd = prog.one(r"^<unix::UnixTerminal as terminal::Terminal>::frames_drop$")
-    cbl = prog.one(r"^common::IOQueue::clear_but_last$")
-    if fd is None or cbl is None:
+    ctx.rule("FRONT-KEPT", "frames_drop -> IOQueue::clear_but_last; every removal there leaves chunk 0 in place (drain/truncate/split_off/remove from a constant index >= 1, "
+                           "pop_back only while more than one chunk is queued) and the bytes subtracted from length are those of the removed tail", floor=2)
+    fd0 = prog.one(r"^<unix::UnixTerminal as terminal::Terminal>::frames_drop$")
+    cbl0 = prog.one(r"^common::IOQueue::clear_but_last$")
+    if fd0 is None or cbl0 is None:
         ctx.anchor("FRONT-KEPT", "frames_drop/clear_but_last")
     else:
-        calls = [t for bb, t in fd.calls()]
-        ctx.instance("FRONT-KEPT", {"fn": fd.path, "calls": [callee_name(t) for t in calls]})
-        if not (len(calls) == 1 and callee_name(calls[0]) == "common::IOQueue::clear_but_last" and arg_place(fd, calls[0], 0) == "(*_1).write_queue"):
+        fd = inl(prog, fd0.path, keep=r"^common::IOQueue::")
+        qcalls = [(bb, t) for bb, t in fd.calls() if any(a.get("k") in ("copy", "move") and arg_place(fd, t, i) == "(*_1).write_queue" for i, a in enumerate(t["args"]))]
+        names = [callee_name(t) for bb, t in qcalls]
+        ctx.instance("FRONT-KEPT", {"fn": fd.path, "calls_on_write_queue": names})
+        other = [n for n in names if n != "common::IOQueue::clear_but_last" and not re.search(r"^common::IOQueue::(is_empty|len|chunks_count|as_slice)$", n or "")]
+        if "common::IOQueue::clear_but_last" not in names or other:
             ctx.violation("FRONT-KEPT", fd.path, "callee", "frames_drop must only call write_queue.clear_but_last()", sites=[fd.loc])
+        cbl = inl(prog, cbl0.path)
+        ccfg = cbl.cfg()
         n = 0
+        removed_from = []
         for bb, t in cbl.calls():
             if call_matches(t, REMOVERS) and arg_place(cbl, t, 0) == "(*_1).chunks":
                 n += 1
                 nm = callee_name(t).split("::")[-1]
-                ok = False
-                if nm == "drain":
-                    l = op_local(t["args"][1])
-                    for d in cbl.defs_of(l):
-                        if d[1] != "term" and d[2]["k"] == "agg" and d[2].get("adt", "").endswith("RangeFrom"):
-                            st = op_const_int(d[2]["fields"][0])
-                            ok = st is not None and st >= 1
-                        elif d[1] != "term" and d[2]["k"] == "agg" and d[2].get("adt", "").endswith("::Range"):
-                            st = op_const_int(d[2]["fields"][0])
-                            ok = st is not None and st >= 1
-                ctx.instance("FRONT-KEPT", {"fn": cbl.path, "op": nm, "keeps_front": ok})
+                ok, k = keeps_front(cbl, ccfg, bb, t, "arg1.chunks")
+                removed_from.append((nm, k))
+                ctx.instance("FRONT-KEPT", {"fn": origin(cbl, bb), "op": nm, "first_removed_index": k, "keeps_front": ok})
                 if not ok:
-                    ctx.violation("FRONT-KEPT", cbl.path, nm,
+                    ctx.violation("FRONT-KEPT", origin(cbl, bb), nm,
                                   "clear_but_last removes chunks with an operation that may drop the front chunk (the one in transmission)",
                                   sites=["%s:%d" % (cbl.file, t["line"])])
         if n == 0:
             ctx.anchor("FRONT-KEPT", "clear_but_last/removal", "no removal operation recognised in clear_but_last")
+        # the amount taken off `length`: when it is a sum over a skipped prefix, the prefix is the part that stays
+        for (i, si, rp, s) in writes_to_field(cbl, r"^\(\*_1\)\.length$"):
+            if si == "term" or s["rv"]["k"] != "use":
+                continue
+            e = expr(cbl, s["rv"]["a"])
+            m = re.search(r"Iterator::skip\(VecDeque::iter(?:_mut)?\(arg1\.chunks\), (\d+)\)", e)
+            ks = {k for nm, k in removed_from if k is not None}
+            if m and ks and int(m.group(1)) not in ks:
+                ctx.violation("FRONT-KEPT", origin(cbl, i), "length-delta", "length is reduced by the bytes of chunks[%s..] but chunks[%s..] are removed" % (m.group(1), sorted(ks)[0]),
+                              sites=["%s:%d" % (cbl.file, s["line"])])
 
     # ---------------- (d2) the queue object is never replaced ---------------------------------------
     ctx.rule("QUEUE-OWNER", "UnixTerminal.write_queue is initialised once (struct literal) and afterwards only borrowed for IOQueue/Write/handler calls: "
@@ -286,6 +615,44 @@ def run(ctx):
     ALLOWED_Q = (r"^common::IOQueue::(is_empty|chunks_count|consume_with|clear_but_last|len|as_slice)$|^<common::IOQueue as std::io::Write>::(write|flush|write_all)$|"
                  r"^std::io::Write::(write_all|write_fmt|write|flush)$|^<.* as image::ImageHandler>::(draw|erase|handle)$|^image::ImageHandler::(draw|erase|handle)$|"
                  r"^<encoder::TTYEncoder as encoder::Encoder>::encode$|^encoder::Encoder::encode$")
+
+    def ref_users(b, l, seen=None):
+        """calls that receive the reference held in local l (through moves, reborrows, unsize coercions)"""
+        seen = seen if seen is not None else set()
+        if l in seen:
+            return []
+        seen.add(l)
+        users = [(ub, t, k) for ub, t in b.calls() for k, a in enumerate(t["args"]) if a.get("k") in ("copy", "move") and a["place"]["l"] == l and not a["place"]["p"]]
+        for bb2, si2, s2 in b.assigns():
+            r2 = s2["rv"]
+            nxt = None
+            if r2["k"] == "ref" and r2["place"]["l"] == l and [e["k"] for e in r2["place"]["p"]] == ["deref"]:
+                nxt = s2["place"]
+            elif r2["k"] in ("cast", "use") and isinstance(r2.get("a"), dict) and r2["a"].get("k") in ("copy", "move") and r2["a"]["place"]["l"] == l and not r2["a"]["place"]["p"]:
+                nxt = s2["place"]
+            if nxt is not None and not nxt["p"]:
+                users += ref_users(b, nxt["l"], seen)
+        return users
+
+    def param_only_borrowed(path, k, depth=0):
+        """a crate-local helper that receives `&mut IOQueue` as argument k hands it on only to the allowed operations and never writes through it"""
+        hb = prog.body(path)
+        if hb is None or depth > 3 or k >= hb.arg_count:
+            return False
+        l = k + 1
+        for bb, si, s in hb.assigns():
+            pl = s["place"]
+            if pl["l"] == l and [e["k"] for e in pl["p"]] == ["deref"]:
+                return False        # *queue = ..
+        for ub, t, ak in ref_users(hb, l):
+            nm = callee_name(t) or "<indirect>"
+            if re.search(ALLOWED_Q, nm):
+                continue
+            if (t["fn"].get("resolved_local") or t["fn"].get("local")) and param_only_borrowed(nm, ak, depth + 1):
+                continue
+            return False
+        return True
+
     n_q = 0
     for b in prog.bodies:
         if not (b.file or "").endswith("unix.rs"):
@@ -298,33 +665,23 @@ def run(ctx):
                 ctx.violation("QUEUE-OWNER", b.path, "assigned", "UnixTerminal.write_queue is overwritten: everything queued, including the unsent rest of the chunk in "
                               "transmission, is discarded (a frame is torn)", sites=["%s:%d" % (b.file, st_["line"])])
             rv = st_["rv"]
-            if rv["k"] == "ref" and re.search(r"\.write_queue$", resolve_place(b, rv["place"])) and "UnixTerminal" in b.local_ty(rv["place"]["l"]):
-                l = st_["place"]["l"]
-                users = [(ub, t) for ub, t in b.calls() if any(a.get("k") in ("copy", "move") and a["place"]["l"] == l and not a["place"]["p"] for a in t["args"])]
-                # a reborrow / unsize coercion of the reference keeps pointing at the queue: follow one level
-                for bb2, si2, s2 in b.assigns():
-                    r2 = s2["rv"]
-                    src_l = None
-                    if r2["k"] == "ref" and r2["place"]["l"] == l:
-                        src_l = s2["place"]["l"]
-                    elif r2["k"] in ("cast", "use") and isinstance(r2.get("a"), dict) and r2["a"].get("k") in ("copy", "move") and r2["a"]["place"]["l"] == l:
-                        src_l = s2["place"]["l"]
-                    if src_l is not None:
-                        users += [(ub, t) for ub, t in b.calls() if any(a.get("k") in ("copy", "move") and a["place"]["l"] == src_l and not a["place"]["p"] for a in t["args"])]
-                for ub, t in users:
+            if rv["k"] == "ref" and re.search(r"\.write_queue$", resolve_place(b, rv["place"])) and "UnixTerminal" in b.local_ty(rv["place"]["l"]) and not st_["place"]["p"]:
+                for ub, t, ak in ref_users(b, st_["place"]["l"]):
                     n_q += 1
                     nm = callee_name(t) or "<indirect>"
                     ok = bool(re.search(ALLOWED_Q, nm)) or (not rv["mut"])
+                    if not ok and (t["fn"].get("resolved_local") or t["fn"].get("local")) and prog.body(nm) is not None and not prog.body(nm).impl_trait:
+                        ok = param_only_borrowed(nm, ak)
                     ctx.instance("QUEUE-OWNER", {"fn": b.path, "borrow_used_by": nm, "mutable": rv["mut"], "allowed": ok})
                     if not ok:
                         ctx.violation("QUEUE-OWNER", b.path, "borrowed-by-" + nm.split("::")[-1], "a mutable borrow of UnixTerminal.write_queue is handed to %s, which can replace or empty "
                                       "the queue (mem::take/replace/swap): the chunk in transmission would be discarded" % nm, sites=["%s:%d" % (b.file, t["line"])])
 
     # ---------------- (e) poll flush + loop condition -------------------------------------------
-    ctx.rule("POLL-LOOP", "poll flushes write_queue before the loop; loop continues while !write_queue.is_empty()", floor=2)
+    ctx.rule("POLL-LOOP", "poll flushes write_queue before the loop; the loop is left from its condition only when write_queue is known to be empty", floor=2)
     cfg = poll.cfg()
-    flush = [bb for bb, t in poll.calls() if call_matches(t, r"^<common::IOQueue as std::io::Write>::flush$") and arg_place(poll, t, 0) == "(*_1).write_queue"]
-    isempty = [(bb, t) for bb, t in poll.calls() if call_matches(t, r"^common::IOQueue::is_empty$") and arg_place(poll, t, 0) == "(*_1).write_queue"]
+    flush = [bb for bb, t in poll.calls() if (call_matches(t, r"^<common::IOQueue as std::io::Write>::flush$|^std::io::Write::flush$") and arg_place(poll, t, 0) == "(*_1).write_queue")
+             or (call_matches(t, r"^<unix::UnixTerminal as std::io::Write>::flush$") and arg_place(poll, t, 0) == "(*_1)")]
     loops = cfg.loops()
     # the main loop: the loop containing the consume_with call
     main = None
@@ -339,16 +696,53 @@ def run(ctx):
         ctx.instance("POLL-LOOP", {"flush_blocks": flush, "loop_header": main, "loop_size": len(body)})
         if not any(cfg.dominates(f, main) and f not in body for f in flush):
             ctx.violation("POLL-LOOP", poll.path, "flush-first", "write_queue.flush() does not dominate the poll loop: an unterminated chunk could be merged with later output or never sent", sites=[poll.loc])
-        # the loop-continuation test on write_queue.is_empty(): the call is in the loop, and on result==false(not empty) the
-        # loop body is entered without consulting events_queue
-        inloop = [(bb, t) for bb, t in isempty if bb in body]
-        ok = False
-        for bb, t in inloop:
-            nb = poll.blocks[t["t"]]
-            tt = nb["term"]
-            # pattern: _x = Not(result); switch _x [0: check events, otherwise: body]   or switch result directly
-            if tt["k"] == "switch":
-                ok = True
-        ctx.instance("POLL-LOOP", {"is_empty_tests_in_loop": [t["line"] for bb, t in inloop]})
-        if not ok:
+        # The loop condition: the blocks reachable from the loop header before anything but a pure size getter is called.  Every way out of the loop
+        # from there must take the "queue is empty" edge of a test on write_queue (is_empty / len / chunks_count in any comparison spelling,
+        # either operand order of || / &&): while output is pending the body is entered whatever the event queue holds.
+        SIZE = r"IOQueue::(len|chunks_count)\(arg1\.write_queue\)"
+        empty_edges = set()
+        tests = []
+        for s in sorted(body):
+            tt = poll.blocks[s]["term"]
+            ed = bool_edges(tt)
+            if ed is None:
+                continue
+            e = expr(poll, tt["d"])
+            neg = False
+            e2 = e
+            while e2.startswith("Not(") and e2.endswith(")"):
+                e2, neg = e2[4:-1], not neg
+            if re.fullmatch(r"IOQueue::is_empty\(arg1\.write_queue\)", e2):
+                empty_edges.add((s, ed[1] if neg else ed[0]))
+                tests.append((s, e))
+                continue
+            st = size_test(e, SIZE)
+            if st is not None:
+                if st[1] == 0:
+                    empty_edges.add((s, ed[0]))
+                    tests.append((s, e))
+                elif st[3] == 0:
+                    empty_edges.add((s, ed[1]))
+                    tests.append((s, e))
+        leak = None
+        seen = set()
+        live = cfg.reaches(set(cfg.returns))      # `unreachable` arms of exhaustive switches are no way out
+        st_ = [main]
+        while st_ and leak is None:
+            x = st_.pop()
+            if x in seen:
+                continue
+            seen.add(x)
+            tx = poll.blocks[x]["term"]
+            if tx["k"] == "call" and not call_matches(tx, r"::(is_empty|len|chunks_count|is_some|is_none)$"):
+                continue
+            for y in cfg.succ[x]:
+                if (x, y) in empty_edges or y not in live:
+                    continue
+                if y not in body:
+                    leak = (x, y)
+                    break
+                st_.append(y)
+        ctx.instance("POLL-LOOP", {"queue_emptiness_tests_in_loop": [e for s, e in tests], "condition_blocks": len(seen), "exit_with_pending_output": leak})
+        if leak is not None or not tests:
             ctx.violation("POLL-LOOP", poll.path, "loop-cond", "the poll loop condition does not test write_queue.is_empty(): pending output may be left unsent when an event is already queued", sites=[poll.loc])
